@@ -370,9 +370,27 @@ class Executor:
                 return L[1]  # &*p == p
             return ("ref", canon_loc(L) if is_heap(L) else L)
         if k == "cast":
-            return ("cast", rv["ck"], self.operand(st, fid, rv["a"]), rv["ty"])
+            a = self.operand(st, fid, rv["a"])
+            if rv["ck"] == "IntToInt" and a[0] == "const" and type(a[1]) is int and len(a) == 2:
+                bits = {"u8": 8, "u16": 16, "u32": 32, "u64": 64, "usize": 64, "i8": 8, "i16": 16, "i32": 32, "i64": 64, "isize": 64}.get(rv["ty"])
+                if bits and rv["ty"].startswith("u") and a[1] >= 0:
+                    return ("const", a[1] & ((1 << bits) - 1))
+            return ("cast", rv["ck"], a, rv["ty"])
         if k == "bin":
-            return ("bin", rv["op"], self.operand(st, fid, rv["a"]), self.operand(st, fid, rv["b"]))
+            a, b = self.operand(st, fid, rv["a"]), self.operand(st, fid, rv["b"])
+            op = rv["op"]
+            if a[0] == "const" and b[0] == "const" and type(a[1]) in (int, bool) and type(b[1]) in (int, bool) and len(a) == 2 and len(b) == 2:
+                x, y = int(a[1]), int(b[1])
+                fold = {"Eq": x == y, "Ne": x != y, "Lt": x < y, "Le": x <= y, "Gt": x > y, "Ge": x >= y}
+                if op in fold:
+                    return ("const", fold[op])
+                if op in ("Add", "AddUnchecked") and 0 <= x + y < 2 ** 64:
+                    return ("const", x + y)
+                if op in ("Sub", "SubUnchecked") and x - y >= 0:
+                    return ("const", x - y)
+                if op == "AddWithOverflow" and 0 <= x + y < 256:
+                    return ("agg", "tuple", None, None, (("0", ("const", x + y)), ("1", ("const", False))))
+            return ("bin", op, a, b)
         if k == "un":
             return ("un", rv["op"], self.operand(st, fid, rv["a"]))
         if k == "discr":
